@@ -1392,6 +1392,14 @@ class Interp:
         if len(e.generators) == 1 and not e.generators[0].ifs:
             g = e.generators[0]
             it = self.eval(g.iter, fr)
+            if getattr(it, "_pyvc_symset", False):
+                interp0 = self
+
+                def per_key(k):
+                    inner = Frame({}, fr, fr.globals, fr.fn_name, owner=fr.owner, self_obj=fr.self_obj)
+                    interp0.assign(g.target, k, inner)
+                    return interp0.eval(e.elt, inner)
+                return it.mapped(per_key)
             if getattr(it, "_pyvc_symseq", False):
                 interp = self
 
@@ -1818,6 +1826,9 @@ def m_sum(interp, it, start=0):
 
 @model(any)
 def m_any(interp, it):
+    from .symmap import SSetMapped, quantify
+    if isinstance(it, SSetMapped):
+        return quantify(it, universal=False)
     vals = interp.iterate(it)
     parts = []
     for v in vals:
@@ -1830,6 +1841,9 @@ def m_any(interp, it):
 
 @model(all)
 def m_all(interp, it):
+    from .symmap import SSetMapped, quantify
+    if isinstance(it, SSetMapped):
+        return quantify(it, universal=True)
     vals = interp.iterate(it)
     parts = []
     for v in vals:
